@@ -45,3 +45,45 @@ def same(a, b):
     if isinstance(a, dict):
         return a.keys() == b.keys() and all(same(a[k], b[k]) for k in a)
     return a == b
+
+
+# ---------------------------------------------------------------------------
+# bounded-exhaustive complement (thorough tier): ALL histories of length L over a small op alphabet for a grid of configurations
+
+ENUM_OPS = [['call', 0, 0, 1], ['call', 1, 0, 2], ['call', 2, 0, 3], ['dump'], ['load'], ['clear'], ['clearkeep']]
+
+
+def enum_case(module, algo, ms, purge, backend, seq):
+    pool = [{'named': [['x', ['i', j]]]} for j in range(3)]
+    return {'module': module, 'algo': algo, 'maxsize': ms, 'ms_pos': False, 'purge': purge, 'keymap': None,
+            'backend': backend, 'sig': {'req': ['x']}, 'rmode': 'str', 'pool': pool, 'ops': [list(ENUM_OPS[t]) for t in seq]}
+
+
+def exhaustive_sweep(run, tier, shard, nshards, checker, L=5):
+    """every history of length L over ENUM_OPS for 12 classes x maxsize {1, 2} x purge x {no archive, dict archive};
+    checker(case, trace) -> list of discrepancies.  The same oracle as the generated search, on a completely covered small scope."""
+    import itertools
+    from harness import cachehist as H
+    if tier != 'thorough':
+        return
+    configs = [(m, a, ms, p, b) for m in ('std', 'safe') for a in H.ALGOS for ms in (1, 2) for p in (False, True) for b in ('none', 'cache_dict')
+               if not (a in ('no', 'inf') and p)]
+    n = 0
+    for ci, (m, a, ms, p, b) in enumerate(configs):
+        if ci % nshards != shard:
+            continue
+        for seq in itertools.product(range(len(ENUM_OPS)), repeat=L):
+            case = enum_case(m, a, ms, p, b, seq)
+            tr = H.run_history(case)
+            discrs = checker(case, tr)
+            n += 1
+            if discrs:
+                path = run.write_replay(case, discrs, tag='enum')
+                for d in discrs:
+                    run.violations.append((d.sig, d.detail, case, path))
+                return
+    run.evaluations += n
+    run.classes['exhaustive_histories_len%d' % L] += n
+    run.extra['exhaustive_subspace'] = 'all %d^%d histories over {call k1..k3, dump, load, clear, clear(keepstats)} x %d configurations (12 classes x maxsize 1-2 x purge x none/dict archive)' % (
+        len(ENUM_OPS), L, len(configs))
+    run.extra['exhaustive_subspace_complete'] = True
